@@ -189,12 +189,36 @@ func (s *c10State) actorName(bech string) string {
 
 func (s *c10State) accessJSON(list string, tracking string, who []int, extra map[string]string) string {
 	m := map[string]string{}
+	id := ftEditorID
+	if list == "v" {
+		id = ftViewerID
+	}
+	listed := map[int]bool{}
 	for _, i := range who {
-		if list == "v" {
-			m[ftViewerID(tracking, s.c.Accs[i].Bech)] = fmt.Sprintf("vk%d", i)
-		} else {
-			m[ftEditorID(tracking, s.c.Accs[i].Bech)] = fmt.Sprintf("ek%d", i)
+		listed[i] = true
+	}
+	for _, i := range who {
+		val := fmt.Sprintf("%sk%d", list, i)
+		// hostile key material: the value next to an id is free text chosen by whoever writes the list. It may be the
+		// access id of an account that is NOT listed, or text that would close the JSON string and open another pair
+		// if it were ever copied unescaped. Neither lists that account.
+		if s.rc.Chance(0.12) {
+			for j := 0; j < 4; j++ {
+				if !listed[j] {
+					switch s.rc.Intn(3) {
+					case 0:
+						val = id(tracking, s.c.Accs[j].Bech)
+					case 1:
+						val = `k","` + id(tracking, s.c.Accs[j].Bech) + `":"k`
+					default:
+						val = `k\","` + id(tracking, s.c.Accs[j].Bech) + `":"\u0022`
+					}
+					s.rc.Count("access_lists_with_hostile_values", 1)
+					break
+				}
+			}
 		}
+		m[id(tracking, s.c.Accs[i].Bech)] = val
 	}
 	for k, v := range extra {
 		m[k] = v
